@@ -143,7 +143,11 @@ def run_builders(case, tape, emit):
     k.enable_monitoring(preempt_codes=K.code_objects(*mods))
 
     results = {}
-    keep = []
+    # the heap of this world differs from the pristine one's: a build whose
+    # result depends on object addresses (iteration over a set of ugens)
+    # cannot agree with it by accident of a shared fork
+    keep = [[object() for _ in range(tape.draw(4096))],
+            [bytearray(tape.draw(97) + 1) for _ in range(tape.draw(512))]]
     single = len(case['threads']) == 1
     residue = []
 
